@@ -5,7 +5,7 @@ ids="$@"; [ -z "$ids" ] && ids="C01 C02 C03 C04 C05 C06 C07 C08 C09 C10 C11 C12 
 mkdir -p /root/scratch/runall
 for id in $ids; do
   s=$(date +%s)
-  /verif/run.sh $id $tier > /root/scratch/runall/$id.$tier.log 2>&1; rc=$?
+  "$(dirname "$0")/../run.sh" $id $tier > /root/scratch/runall/$id.$tier.log 2>&1; rc=$?
   e=$(( $(date +%s) - s ))
   echo "$id rc=$rc ${e}s $(grep -c '^VIOLATION' /root/scratch/runall/$id.$tier.log) violations; $(grep '^unconfirmed\|^infra\|engine F phase' /root/scratch/runall/$id.$tier.log | head -2 | tr '\n' ' ' | cut -c1-160)"
 done
